@@ -83,6 +83,18 @@ def run(chk):
     # liquid dynamic == solid dynamic with mu -> 0 restricted to (y1,y2,y5,y6) after eliminating y3 (y4 = 0): checked through the reference construction (ts72) -- the
     # reference liquid system is itself the mu -> 0 reduction; see oracle docstring.
 
+    # ---- R01.9 structure of the equations, independent of any transcribed reference: every class conserves the bilinear concomitant
+    #      W(y,z) = r^2 [y1 z2 - y2 z1 + l(l+1)(y3 z4 - y4 z3) + (y5 z6 - y6 z5)/(4 pi G)]  (static liquid: r^2 (y5 z7 - y7 z5)/(4 pi G)) for complex moduli:
+    #      Omega' + A^T Omega + Omega A == 0.  (This is what makes reciprocity, C03, and the energy theorem, C05, hold.)
+    Pc = SM.params(); Pc['K'] = X.atom('Kc', 'complex')
+    for (kind, static, incomp), cname in SM.CLASSES.items():
+        names = ts72.LAYOUT[(kind, static)]; nys = len(names)
+        dyc, yc, fnode = SM.extract_rhs(repo, mo, cname, Pc, nys)
+        Ac = SM.matrix_from(dyc, nys)
+        bad = SM.symplectic_defect(Ac, SM.symplectic_form(names, Pc), nys, d, names)
+        chk.ob('R01.9', f'{cname}: the system conserves the bilinear concomitant W(y, z) of two solutions (Omega\' + A^T Omega + Omega A == 0, complex moduli)', not bad,
+               f'entries that do not vanish: {bad[:6]}', mo.where(fnode), key=f'R01.9|{cname}', method='symbolic differentiation + GF(p^2) PIT')
+    chk.floor('R01.9', 8)
     # ---- R01.7 sibling implementation (interpreted solver package): same reference systems
     from . import legacy_solver
     legacy_solver.derivatives(chk, repo, d, 'R01.7')
